@@ -28,7 +28,7 @@ def run(tier):
         events, bad = mc.validate(chk, tpath, "ptr/" + tag)
         total += len(events)
         for e in events:
-            if e["e"] in ("ptrload", "ptrstore"):
+            if e["e"] in ("ptrload", "ptrloadrun", "ptrstore"):
                 combos.add((e["e"], e["pos"], tag, e["cls"], e["out"]))
         for b, ev in bad:
             chk.violation("pointer %s outside the C07 Contract [%s]: %s" % (ev["e"], tag, mc.pretty(ev)), mc.pretty(ev))
